@@ -2268,7 +2268,114 @@ def rule_namescope(repo):
     return r
 
 
-RULES = [rule_intlog, rule_litwidth, rule_idxwidth, rule_optable, rule_handlers, rule_mismatch, rule_widthtable, rule_cache, rule_ir_eq, rule_slice_step, rule_dtype, rule_blockstate, rule_constfold, rule_namescope,
+# ---------------------------------------------------------------------------
+class _NoConst(NativeModel):
+    def enter(self, node):
+        return None
+
+
+def rule_slicepair(repo):
+    r = RuleResult('R-C10-slicepair', "every path of the generator that builds a bir.Slice (literal lo:hi, static slice object; both python-"
+                                      "version siblings) hands (lower, upper) = (start, stop) to it -- the pair the checker's visit_Slice "
+                                      "reads: the selection is typed stop - start bits")
+    from sa.astutil import reaching_value, subst
+    w = world(repo)
+    S = lambda v, name: SymInt(v, sym=name)
+    gm = w.repo.mod(BEH + 'BehavioralRTLIRGenL5Pass.py')
+    gv = w.I.find_method(w.I.clsval(gm, gm.get_class('BehavioralRTLIRGenL5Pass')), 'get_rtlir_generator_class')
+    if gv is None:
+        raise AnalysisError("anchor vanished: get_rtlir_generator_class")
+    gen = w.I.call_function(gv, [Opaque('pass')], {})
+    LO, HI, N = 2, 7, 8
+
+    def run(meth, src):
+        g = AInst(gen)
+        g.attrs.update(closure={}, globals={}, blk=Opaque('blk'), component=Opaque('component'), const_extractor=_NoConst(),
+                       _upblk_name='blk', loop_var_env=set(), tmp_var_env=set())
+
+        def visit(n):
+            if isinstance(n, ast.Slice):
+                return w.I.call(w.I.getattr(g, 'visit_Slice'), [n])
+            if isinstance(n, ast.Constant):
+                return w.new(w.bir, 'Number', S(n.value, 'lo' if n.value == LO else 'hi'))
+            if isinstance(n, ast.Name) and n.id == 'sl':
+                return w.new(w.bir, 'FreeVar', 'sl', slice(S(LO, 'lo'), S(HI, 'hi')))
+            if isinstance(n, ast.Attribute):
+                return w.operand('E', S(N, 'w'))
+            raise AnalysisError(f"slice probe: unexpected node {type(n).__name__}")
+        g.attrs['visit'] = visit
+        node = ast.parse(src, mode='eval').body
+        w.evals += 1
+        return w.I.call(w.I.getattr(g, meth), [node])
+    meths = [n for n in ('_visit_Subscript_starting_py39', '_visit_Subscript_up_to_py38') if w.I.find_method(gen, n) is not None]
+    if len(meths) < 1:
+        raise AnalysisError("anchor vanished: generator _visit_Subscript_*")
+    for meth in meths:
+        f = w.I.find_method(gen, meth)
+        for path, src in (('literal slice s.in_[lo:hi]', f"s.in_[{LO}:{HI}]"), ('static slice object s.in_[sl]', "s.in_[sl]")):
+            if meth.endswith('py38') and 'object' in path:
+                continue        # needs ast.Index nodes, which python >= 3.9 no longer creates: covered by the sibling comparison below
+            cons = f"{meth}: {path}"
+            try:
+                ret = run(meth, src)
+            except Raised as e:
+                r.bad(f.mod, f"{f.defcls.name}.{meth}", cons, f"translating the subscript ends with {e.what}", f.node.lineno)
+                continue
+            prob = None
+            if not isinstance(ret, AInst) or ret.cls.name != 'Slice':
+                prob = f"does not build a bir.Slice ({ret!r})"
+            else:
+                lo, up = ret.attrs.get('lower'), ret.attrs.get('upper')
+                vals = [form_of(x.attrs.get('value')) if isinstance(x, AInst) and x.cls.name == 'Number' else None for x in (lo, up)]
+                if vals != [{'lo': 1}, {'hi': 1}]:
+                    prob = (f"bir.Slice gets (lower, upper) = ({vals[0]}, {vals[1]}) instead of (start, stop): the checker's visit_Slice reads "
+                            f"the pair as (lower, upper), so s.in_[{LO}:{HI}] is typed {HI - 2 * LO if vals[1] == {'hi': 1, 'lo': -1} else '?'} "
+                            f"bits while the simulator selects {HI - LO} bits")
+                else:
+                    ck = w.checker()
+                    for x in (lo, up):
+                        w.run(ck, 'visit_Number', x)
+                    exc = w.run(ck, 'visit_Slice', ret)
+                    if exc is not None or w.nwidth(ret).form != {'hi': 1, 'lo': -1}:
+                        prob = f"the checker types the produced slice {exc or w.nwidth(ret).form}, the simulator's value has stop - start bits"
+            if prob:
+                r.bad(f.mod, f"{f.defcls.name}.{meth}", cons, prob, f.node.lineno)
+            else:
+                r.ok(f.mod, f"{f.defcls.name}.{meth}", cons)
+    # version siblings build their slices from the same pairs
+    if len(meths) == 2:
+        sig = {}
+        for meth in meths:
+            f = w.I.find_method(gen, meth)
+            calls = []
+            for c in walk_no_nested(f.node):
+                if isinstance(c, ast.Call) and norm(c.func) == 'bir.Slice':
+                    args = []
+                    for a in c.args:
+                        for _ in range(3):
+                            mp = {x.id: reaching_value(x.id, c) for x in ast.walk(a) if isinstance(x, ast.Name)}
+                            mp = {k: v for k, v in mp.items() if v is not None and not isinstance(v, ast.Call) or
+                                  (v is not None and isinstance(v, ast.Call) and norm(v.func) == 'bir.Number')}
+                            if not mp:
+                                break
+                            a = subst(a, mp)
+                        args.append(norm(a))
+                    calls.append(tuple(args))
+            sig[meth] = sorted(calls)
+        f = w.I.find_method(gen, meths[0])
+        cons = "version siblings build bir.Slice from the same (value, lower, upper) expressions"
+        if sig[meths[0]] == sig[meths[1]]:
+            r.ok(f.mod, f.defcls.name, cons)
+        else:
+            r.bad(f.mod, f.defcls.name, cons, f"{meths[0]} builds {sig[meths[0]]} but {meths[1]} builds {sig[meths[1]]}: the same update "
+                  f"block is translated differently depending on the python version", f.node.lineno)
+    w.sync()
+    r.evaluations = w.evals
+    r.require_floor(4)
+    return r
+
+
+RULES = [rule_intlog, rule_litwidth, rule_idxwidth, rule_optable, rule_handlers, rule_mismatch, rule_widthtable, rule_cache, rule_ir_eq, rule_slice_step, rule_dtype, rule_blockstate, rule_constfold, rule_namescope, rule_slicepair,
          rule_constcache_dep, rule_sim_accepts,
          rule_sim_helpers]
 
